@@ -17,7 +17,7 @@ from ..harness import WORK, watchdog, WatchdogTimeout, digest
 from ..monitors import StageTrace
 
 MANIFEST = {
-    'text': 'Held on every ensemble call executed: ensemble_sift and complete_ensemble_sift are run for nensembles 1..8 x nprocesses 1..8 x noise_mode {single, flip} x noise {0, 0.05, 2} with delay injection in the workers; the noisy input of every member decomposition is captured byte-for-byte in whichever process sifts it; members must have pairwise distinct noise (flip: +- pairs), the count of decompositions must match, the output must equal the per-IMF member mean recomputed from the captured inputs (1e-12), and zero noise must equal the classic sift. Calls where jobs did not land on >= 2 different worker pids cannot show duplicated fork state; too few such calls makes the run inconclusive. OS schedules are sampled, not enumerated.',
+    'text': 'Held on every ensemble call executed: ensemble_sift and complete_ensemble_sift are run for nensembles 1..8 x nprocesses 1..8 x noise_mode {single, flip} x noise {0, 0.05, 2} with delay injection in the workers; the noisy input of every member decomposition is captured byte-for-byte in whichever process sifts it; members must have pairwise distinct noise (flip: +- pairs), the count of decompositions must match, the output must equal the per-IMF member mean recomputed from the captured inputs (1e-12), and zero noise must equal the classic sift. Calls where jobs did not land on >= 2 different worker pids cannot show duplicated fork state; too few such calls makes the run inconclusive. OS schedules are sampled, not enumerated. Schedules: the same deterministic calls made from 4-5 threads of one interpreter at once (thread switch every 1-10 microseconds) must reproduce the results obtained alone. A quarter of the shards run in a session that turns Deprecation/Future/UserWarnings into errors.',
     'note': 'Trusted: fork start method (asserted), the classic sift used to recompute member decompositions (C01-C04), numpy/scipy. If a member lacks a component, either the zero-padded mean or absence of the column is accepted.',
     'technique': 'offline history checker over per-process event logs (unique noise digests per member, recomputed member mean), delay injection for schedule diversity',
 }
